@@ -134,7 +134,7 @@ Definition part_name_of (l : list (bs * (Z * Z * Z))) (i : Z) : option (list byt
 Definition optname_eqb (a : option (list byte)) (b : list byte) : bool :=
   match a with Some x => bytes_eqb x b | None => false end.
 
-Definition spec_ok (c : case) : bool :=
+Definition spec_body (c : case) : bool :=
   let rs := unrows (c_in c) in
   let out := unrows (c_out c) in
   let L := alen rs in
@@ -255,4 +255,18 @@ Definition spec_ok (c : case) : bool :=
       then negb (c_err c) && rows_eqb out rs else true
   end.
 
+(* the cases that are inside the property's quantifier (judged by spec_body) *)
+Definition spec_dom (c : case) : bool :=
+  let rs := unrows (c_in c) in
+  in_domain c &&
+  match c_op c with
+  | OpConcat _ cr => rectangularb (unrows cr) && nodup_names (names (unrows cr))
+  | OpSplit ranges => ranges_valid (alen rs) ranges
+  | OpTransposeTwice => 0 <? alen rs
+  | OpDiffReplace => forallb (fun r => forallb (fun b => negb (beqb b x2e)) (snd r)) rs
+  | _ => true
+  end.
+Definition spec_check (c : case) : option bool := if spec_dom c then Some (spec_body c) else None.
+Definition spec_ok (c : case) : bool := ok_of (spec_check c).
 Definition failing := failing_gen model_ok spec_ok.
+Definition count_judged := count_judged_gen spec_check.
